@@ -19,7 +19,7 @@ META = {
              "4 orders x 2 windows x 2 backends; identities evaluated on every bin; non-trivial: bins with XX and YY above 1e6x "
              "their rounding tolerance"),
     "exhaustive": True,
-    "bounds": {"quick": "N=8, x = s+[1,-2] for every s in {-2,0,1}^6 (every 27th also scaled by 1e-100, 1e-30, 1e30, 1e100); partners 8; plans (ltf,.5,J3,K2),(vectorized_ltf,0,J5,K1,Lmin2),(lpsd,.75,J4,K3); orders -1..2; windows hann,kaiser60; numba+numpy",
+    "bounds": {"quick": "N=8, x = s+[1,-2] for every s in {-2,0,1}^6 (every 27th also scaled by 1e-100, 1e-30, 1e30, 1e100); partners 8; plans (ltf,.5,J3,K2),(vectorized_ltf,0,J5,K1,Lmin2),(lpsd,.75,J4,K3); orders -1..2; windows hann,kaiser60 (numba) / hann (numpy); numba+numpy",
                "thorough": "x over all of {-2,0,1}^8"},
     "assumptions": ["bounds carry the derived rounding tolerance of the estimates (see C01); exact-arithmetic identities are demanded to 1e-9 relative"],
 }
@@ -45,6 +45,8 @@ def shards(tier, seed):
     for ci in range(nchunk):
         for backend in ("numba", "numpy"):
             out.append({"n": n, "lo": ci * M // nchunk, "hi": (ci + 1) * M // nchunk, "backend": backend})
+    for backend in ("numba", "numpy"):
+        out.append({"big": True, "backend": backend})
     # the same identities for records in extreme units (every 27th record of the alphabet)
     for scale in (1e-100, 1e-30, 1e30, 1e100):
         for backend in ("numba", "numpy"):
@@ -59,6 +61,8 @@ def run_shard(shard):
     if "case" in shard:
         c = shard["case"]
         return _pair(np.asarray(c["x"], float), c["partner"], c["plan"], c["order"], c["win"], c["backend"], c.get("scale", 1.0))
+    if shard.get("big"):
+        return _big(shard)
     n, backend = shard["n"], shard["backend"]
     alln = records.sigma_all(n)[shard["lo"]:shard["hi"]]
     out = {"evals": 0, "nontrivial": 0, "failures": [], "samples": [], "extra": {"bins_coh1_checked": 0, "bins_complex_XY": 0}}
@@ -66,7 +70,7 @@ def run_shard(shard):
     scale = shard.get("scale", 1.0)
     for s in alln[::shard.get("stride", 1)]:
         x = s if n == 8 else np.concatenate([s, [1.0, -2.0]])
-        for pn, pi, order, win in itertools.product(PARTNERS, range(len(PLANS)), (-1, 0, 1, 2), ("hann", "kaiser60")):
+        for pn, pi, order, win in itertools.product(PARTNERS, range(len(PLANS)), (-1, 0, 1, 2), ("hann", "kaiser60") if backend == "numba" else ("hann",)):
             r = _pair(x, pn, pi, order, win, backend, scale)
             out["evals"] += r["evals"]
             out["nontrivial"] += r["nontrivial"]
@@ -82,7 +86,34 @@ def run_shard(shard):
 
 
 def replay(case):
+    if case.get("big"):
+        return run_shard(case)["failures"]
     return run_shard({"case": case})["failures"]
+
+
+def _big(shard):
+    """The same identities on records of realistic length (N=6000, default scheduler, ~150 bins)."""
+    global PLANS
+    out = {"evals": 0, "nontrivial": 0, "failures": [], "samples": [], "extra": {"bins_coh1_checked": 0, "bins_complex_XY": 0}}
+    saved = PLANS
+    PLANS = ({"scheduler": "vectorized_ltf", "olap": 0.5, "Jdes": 150, "Kdes": 20},)
+    try:
+        x = records.id1(6000) + 0.5 * records.id3(6000)
+        for pn, order, win in itertools.product(("id1", "m2x", "xpc", "roll", "const", "zero"), (-1, 0, 1, 2), ("hann", "kaiser60")):
+            r = _pair(x, pn, 0, order, win, shard["backend"])
+            out["evals"] += r["evals"]
+            out["nontrivial"] += r["nontrivial"]
+            for k in ("bins_coh1_checked", "bins_complex_XY"):
+                out["extra"][k] += r["extra"][k]
+            for f_ in r["failures"]:
+                f_["case"] = dict(shard)
+                f_["key"] = "big/" + f_["key"]
+                if not any(g["key"] == f_["key"] for g in out["failures"]):
+                    out["failures"].append(f_)
+    finally:
+        PLANS = saved
+    out["samples"].append({"big": 6000, "partners": 6})
+    return out
 
 
 def _pair(x, pn, pi, order, win, backend, scale=1.0):
